@@ -42,6 +42,8 @@ static void emit(RandSystem& rs, Force::DiscreteForces& df, Rng& r, bool zeroU, 
     Vector udot; Vector_<SpatialVec> A; m.calcAccelerationIgnoringConstraints(s, MF, FB, udot, A);
     pvec("OUT FDUD", udot);
     for (int b = 0; b < NB; ++b) { std::printf("OUT FDACC %d", b); psv(A[b]); std::printf("\n"); }
+    // body-to-mobility force mapping: J'F - inertial forces of the current velocities
+    { Vector feq; m.calcTreeEquivalentMobilityForces(s, FB, feq); pvec("OUT EQUIV", feq); }
     // forward dynamics by realizing the system with the same forces applied through a force element
     rs.sys.realize(s, Stage::Acceleration);
     pvec("OUT RUD", s.getUDot());
@@ -109,6 +111,9 @@ int main(int argc, char** argv) {
             RandSystem rs; Force::DiscreteForces df(rs.forces, rs.matter);
             try {
                 int np = r.I(1, 3);
+                // half of the time a Free or Ball body comes first, so that the particles' q and u offsets differ
+                if (r.I(0, 1)) { int ty = r.I(0, 1) ? 9 : 8; addMobod(ty, rs.matter.updGround(), r.xf(), Body::Rigid(randomMassProps(r)), r.xf(), false);
+                                 rs.types.push_back(ty); rs.revs.push_back(false); }
                 for (int i = 0; i < np; ++i) {
                     MassProperties mp = (i == 0) ? MassProperties(r.U(0.2, 2), Vec3(0), Inertia(0)) : randomMassProps(r);
                     MobilizedBody::Translation(rs.matter.updGround(), Transform(), Body::Rigid(mp), Transform());
